@@ -22,7 +22,7 @@ from typing import Dict, List
 from core import Case
 
 PID = "C16"
-LEAN_MODULES = ["KrroodVerif.Props.C16", "KrroodVerif.Props.C16Table"]
+LEAN_MODULES = ["KrroodVerif.Props.C16", "KrroodVerif.Props.C16Table", "KrroodVerif.Props.C16HalfBuilt"]
 THEOREMS = [
     "KrroodVerif.PD.C16_full",
     "KrroodVerif.PD.C16_partial",
@@ -48,6 +48,11 @@ THEOREMS = [
     "KrroodVerif.PD.C16_table_hand_meets_property",
     "KrroodVerif.PD.C16_of_table_norm_eq",
     "KrroodVerif.PD.C16_table_run",
+    # instances under construction, F-C16-10 (Model/DescriptorHalfBuilt.lean, Props/C16HalfBuilt.lean)
+    "KrroodVerif.PD.C16_half_state",
+    "KrroodVerif.PD.C16_half_repaired",
+    "KrroodVerif.PD.C16_half_partial",
+    "KrroodVerif.PD.C16_half_cex",
 ]
 
 
@@ -545,14 +550,6 @@ def _ctor_history(rng, i: int) -> Case:
     n_obj = rng.randint(3, 6)
     cls_of = [rng.choice(plain) for _ in range(n_obj)]
     late = sorted(rng.sample(range(n_obj), rng.randint(1, 2)))
-    if tag == "U":
-        # the repository's classes are eq-dataclasses: while an instance is being constructed, inference that compares
-        # it (`value in container`) with another instance of ITS class reads fields `__init__` has not assigned yet and
-        # raises AttributeError (candidate finding F-C16-10, see notes/build_reports/C16_table.md). Constructor cases
-        # on U stay outside that: the constructed instance is the only one of its class.
-        late = late[:1]
-        other = [c for c in plain if c != cls_of[late[0]]]
-        cls_of = [cls_of[o] if o in late else rng.choice(other) for o in range(n_obj)]
     exists = [o for o in range(n_obj) if o not in late]
     has_asserted, set_done = set(), set()
     ops: List[str] = []
